@@ -2,9 +2,11 @@ package api
 
 import (
 	"bytes"
+	"encoding/binary"
 	"encoding/hex"
 	"encoding/json"
 	"fmt"
+	"github.com/skycoin/skycoin/src/coin"
 	"net/http"
 	"net/http/httptest"
 	"net/url"
@@ -388,6 +390,26 @@ func (c *c28Ctx) collectLive() {
 	}
 	for _, ux := range all {
 		add(&c.uxids, ux.Hash().Hex())
+	}
+	// transactions over real unspent outputs whose signature array does not match their inputs: shorter (but not
+	// empty), longer, or empty - with a correct inner hash and length field, so that only that mismatch is wrong
+	sort.Slice(all, func(i, j int) bool { return all[i].Hash().Hex() < all[j].Hash().Hex() })
+	if len(all) >= 3 {
+		for _, shape := range [][2]int{{2, 1}, {3, 1}, {3, 2}, {1, 2}, {2, 0}} {
+			var txn coin.Transaction
+			var coins uint64
+			for i := 0; i < shape[0]; i++ {
+				txn.In = append(txn.In, all[i].Hash())
+				coins += all[i].Body.Coins
+			}
+			txn.Out = []coin.TransactionOutput{{Address: c28Users[1].Addr, Coins: coins, Hours: 1}}
+			txn.Sigs = make([]cipher.Sig, shape[1])
+			txn.InnerHash = txn.HashInner()
+			if raw, err := txn.Serialize(); err == nil {
+				binary.LittleEndian.PutUint32(raw[:4], uint32(len(raw)))
+				c.rawtxs = append(c.rawtxs, hex.EncodeToString(raw))
+			}
+		}
 	}
 	sort.Strings(c.uxids)
 	sort.Strings(c.addrs)
